@@ -243,6 +243,9 @@ func (w *txWorld) buildHistory(rng *rand.Rand, n int) {
 			break
 		}
 	}
+	if n > 0 {
+		w.leasePrelude()
+	}
 	for step := 0; step < n; step++ {
 		i := rng.Intn(len(w.txs))
 		t := w.txs[i]
@@ -327,6 +330,80 @@ func (w *txWorld) buildHistory(rng *rand.Rand, n int) {
 	}
 }
 
+// spendPairs lists (parent, output index, spender) triples of the universe where the parent output is one the
+// histories credit to the wallet.
+func (w *txWorld) spendPairs() [][3]int {
+	var out [][3]int
+	for si, sp := range w.txs {
+		for _, in := range sp.rec.MsgTx.TxIn {
+			op := in.PreviousOutPoint
+			for pi, p := range w.txs {
+				if p.rec.Hash == op.Hash && int(op.Index) < len(p.ours) && p.ours[op.Index] {
+					out = append(out, [3]int{pi, int(op.Index), si})
+				}
+			}
+		}
+	}
+	return out
+}
+
+// leasePrelude: every non-empty history starts with "an output the wallet owns is leased (LockOutput) while the
+// transaction spending it is not yet recorded", so that confirming that spender (InsertTx mined: the unlockOutput
+// Delete in bucket "lo" among its writes) is a reachable operation in most states.  The parent is a transaction
+// already recorded by the mining prelude if it has a spender in the universe, else the first spend pair.
+func (w *txWorld) leasePrelude() {
+	pairs := w.spendPairs()
+	if len(pairs) == 0 {
+		return
+	}
+	pick := pairs[0]
+	for _, pr := range pairs {
+		if _, present := w.blockOf(pr[0]); present {
+			pick = pr
+			break
+		}
+	}
+	p := w.txs[pick[0]]
+	if _, present := w.blockOf(pick[0]); !present {
+		if w.top < 1 {
+			w.top = 1
+		}
+		bm := blockMeta(w.top)
+		_ = w.update(func(ns walletdb.ReadWriteBucket) error {
+			if err := w.store.InsertTx(ns, p.rec, bm); err != nil {
+				return err
+			}
+			for j, o := range p.ours {
+				if o {
+					if err := w.store.AddCredit(ns, p.rec, bm, uint32(j), false); err != nil {
+						return err
+					}
+				}
+			}
+			return nil
+		})
+	}
+	_ = w.update(func(ns walletdb.ReadWriteBucket) error {
+		_, err := w.store.LockOutput(ns, lockID(0), wire.OutPoint{Hash: p.rec.Hash, Index: uint32(pick[1])}, 10*time.Minute)
+		return err
+	})
+}
+
+// lockedOutpoints: the outpoints ListLockedOutputs reports now.
+func (w *txWorld) lockedOutpoints() map[wire.OutPoint]bool {
+	m := map[wire.OutPoint]bool{}
+	_ = w.view(func(ns walletdb.ReadBucket) error {
+		lo, err := w.store.ListLockedOutputs(ns)
+		if err == nil {
+			for _, o := range lo {
+				m[o.Outpoint] = true
+			}
+		}
+		return nil
+	})
+	return m
+}
+
 // ---- targets
 
 // targets enumerates operation descriptors meaningful in the current state.
@@ -390,6 +467,34 @@ func (w *txWorld) targets(rng *rand.Rand, tier string) []string {
 			}
 			forced++
 		}
+	}
+	// always: confirm a not yet mined transaction that spends a currently LEASED output (insertMinedTx clears the
+	// lease: unlockOutput's Delete is then a write with an effect); at most 2 per state
+	locked := w.lockedOutpoints()
+	forced = 0
+	for i, t := range w.txs {
+		if forced >= 2 {
+			break
+		}
+		if bm, _ := w.blockOf(i); bm != nil {
+			continue
+		}
+		spendsLeased := false
+		for _, in := range t.rec.MsgTx.TxIn {
+			spendsLeased = spendsLeased || locked[in.PreviousOutPoint]
+		}
+		if !spendsLeased {
+			continue
+		}
+		d := fmt.Sprintf("InsertTx/t:%d/h:%d", i, w.top+1)
+		dup := false
+		for _, x := range out {
+			dup = dup || x == d
+		}
+		if !dup {
+			out = append(out, d)
+		}
+		forced++
 	}
 	return out
 }
